@@ -1,4 +1,5 @@
 #!/bin/bash
+VDIR="$(dirname "$(dirname "$(realpath "$0")")")"
 # with_patch.sh <patch.diff> <command...>
 # Applies a patch to /repo's working tree, runs the command, and always reverts
 # the working tree afterwards (git checkout + clean of files the patch added).
@@ -8,7 +9,7 @@ cd /repo || exit 2
 if ! git diff --quiet || ! git diff --cached --quiet; then echo "with_patch: /repo working tree is not clean" >&2; exit 2; fi
 git apply --check "$patch" || { echo "with_patch: patch does not apply" >&2; exit 2; }
 git apply "$patch"
-cd /verif
+cd "$VDIR"
 "$@"
 rc=$?
 git -C /repo checkout -q -- . && git -C /repo clean -fdq
